@@ -249,6 +249,7 @@ int main(int argc, char **argv)
 {
 	vh_args_t a;
 	vh_parse_args(argc, argv, &a);
+	vh_alloc_install();	/* foreign frees and writes after free, also inside the uninstrumented JSON library */
 	vh_rng_seed(&rng, a.seed, 5);
 	for (int k = 0; k < NK; k++) {
 		if (vh_key_gen(&K[k], KSPEC[k], &rng)) vh_harness_fail("keygen");
